@@ -17,6 +17,13 @@ Theorem c12_literal_bound_printed_as_value : forall w e,
 Proof. exact print_bound_literal. Qed.
 Print Assumptions c12_literal_bound_printed_as_value.
 
+(* ... and so is a negative literal, ARRAY [-2:2]: the parser reads it as the negation of a literal, and the branch that
+   prints it (present in the regenerated rule) takes the operand's value *)
+Theorem c12_negative_literal_bound_printed_as_value : forall w e v,
+  etype e <> Type_Integer -> eneg e = Some v -> negated_literal_as_number = true -> print_bound w e = PNumber (- v)%Z.
+Proof. exact print_bound_negated_literal. Qed.
+Print Assumptions c12_negative_literal_bound_printed_as_value.
+
 (* The order in which every tool walks a scope (DICTdo) is computed by Hash.v from the declared
    names alone; for any number of names, any hash function, every declared name is visited
    exactly once: the emission order is a permutation of the declarations, fixed by the names. *)
@@ -37,7 +44,7 @@ Print Assumptions c12_lookup_finds_exactly_declared.
 
 (* non-vacuity: an identifier bound under two different worlds; a small dictionary *)
 Example c12_example :
-  let e := {| etype := Type_Identifier; etext := [109%N; 97%N; 120%N]; evalue := 0%Z |} in
+  let e := {| etype := Type_Identifier; etext := [109%N; 97%N; 120%N]; evalue := 0%Z; eneg := None |} in
   print_bound (fun _ => 273622848%Z) e = PText [109%N; 97%N; 120%N] /\
   print_bound (fun _ => (-549664960)%Z) e = PText [109%N; 97%N; 120%N] /\
   dict_order [[101%N]; [102%N]; [97%N; 98%N]] = [[97%N; 98%N]; [101%N]; [102%N]].
